@@ -768,6 +768,7 @@ static inline int myth_timedjoin_body(myth_thread_t th,
       if (myth_tryjoin_body(th, result) == 0) {
 	return 0;
       } else {
+	MYTH_VERIF_SPIN(64);
 	myth_yield_ex_body(myth_yield_option_local_first);
       }
     }
@@ -1092,6 +1093,7 @@ static inline int myth_nanosleep_body(const struct timespec *req,
   while (1) {
     hr_gettime(cur);
     if (myth_timespec_gt(cur, unt)) break;
+    MYTH_VERIF_SPIN(65);
     myth_yield_body();
   }
   return 0;
